@@ -131,15 +131,22 @@ impl std::fmt::Debug for Ty {
 }
 
 impl Ty {
-    pub fn get_constr_name_unsafe(&self) -> String {
+    /// The name of the type constructor, if the type has one (a type application on a type
+    /// parameter, `T[int32]`, has none).
+    pub fn constr_name(&self) -> Option<String> {
         match self {
-            Self::TEnum { name } | Self::TStruct { name } => name.clone(),
-            Self::TApp { ty, .. } => ty.get_constr_name_unsafe(),
-            Self::TVec { .. } => "Vec".to_string(),
-            Self::TRef { .. } => "Ref".to_string(),
-            _ => {
-                panic!("Expected a constructor type, got: {:?}", self)
-            }
+            Self::TEnum { name } | Self::TStruct { name } => Some(name.clone()),
+            Self::TApp { ty, .. } => ty.constr_name(),
+            Self::TVec { .. } => Some("Vec".to_string()),
+            Self::TRef { .. } => Some("Ref".to_string()),
+            _ => None,
+        }
+    }
+
+    pub fn get_constr_name_unsafe(&self) -> String {
+        match self.constr_name() {
+            Some(name) => name,
+            None => panic!("Expected a constructor type, got: {:?}", self),
         }
     }
 }
